@@ -263,11 +263,13 @@ func ruleSelectScope(c *Ctx) {
 	}
 	c.count("id-stores", n)
 	c.floor("id-stores", 2)
+	c.floor("select-executors", 1)
 	execs, _ := c.P.executors()
 	for _, e := range execs {
 		if e.Name != "SELECT" {
 			continue
 		}
+		c.count("select-executors", 1)
 		c.analysed(e.Fn)
 		var sel *ssa.Call
 		allInstrs(e.Fn, func(ins ssa.Instruction) {
